@@ -83,6 +83,9 @@ var verifTimestamps = []struct {
 	{"2024-01-02T03:04:05Z", true},
 	{"2024-01-02T03:04:05.000000001+02:00", true},
 	{"2024-13-02T03:04:05Z", false},
+	// well-formed fields, but no such day in the calendar (the daemon's own fixed-width spelling)
+	{"2023-02-29T10:00:00.000000001Z", false},
+	{"2024-04-31T10:00:00.000000000Z", false},
 }
 
 func verifFrameBytes(f verifFrameSpec) []byte {
@@ -121,7 +124,7 @@ func verifC03Stream(R, maxMsg int, withSplit bool, faults bool) {
 			case 1:
 				f.typ = 3
 			case 2:
-				f.tsIdx = 3
+				f.tsIdx = 3 + vsymChoice("badts", 3)
 			case 3:
 				f.space = false
 			case 4:
